@@ -73,9 +73,13 @@ func (r *Eval) Run(ctx context.Context, script []byte) (Object, *Bytecode, error
 	}
 
 	r.VM.modulesCache = r.ModulesCache
-	ret, err := r.run(ctx)
+	ret, started, err := r.run(ctx)
 	r.ModulesCache = r.VM.modulesCache
-	r.Locals = r.VM.GetLocals(r.Locals)
+	if started {
+		// the stack holds the variables only if the VM ran; it is empty when
+		// the context was done before the run started.
+		r.Locals = r.VM.GetLocals(r.Locals)
+	}
 	r.VM.Clear()
 
 	if err != nil {
@@ -84,7 +88,7 @@ func (r *Eval) Run(ctx context.Context, script []byte) (Object, *Bytecode, error
 	return ret, bytecode, nil
 }
 
-func (r *Eval) run(ctx context.Context) (ret Object, err error) {
+func (r *Eval) run(ctx context.Context) (ret Object, started bool, err error) {
 	ret = Undefined
 	doneCh := make(chan struct{})
 	// Always check whether context is done before running VM because
@@ -99,6 +103,7 @@ func (r *Eval) run(ctx context.Context) (ret Object, err error) {
 		// read the abort counter before starting the goroutine, otherwise an
 		// Abort call below is lost if it is called before Run is entered.
 		seq := r.VM.abort.Load()
+		started = true
 		go func() {
 			defer close(doneCh)
 			verifPoint("eval.goroutine_start", r.VM)
